@@ -86,39 +86,79 @@ Section Sim.
           (fun r => star (S1 fid C fv K pc σ ρ I s)
                          (S1 fid C fv K (pc + length (flat_map (gen_expr p (map fst ρ)) es)) (rev (fst r) ++ σ) ρ I (snd r))).
 
-  Definition pos_args (args : list arg) : list expr :=
-    flat_map (fun a => match a with APos e => [e] | _ => [] end) args.
+  Definition arg_code (ls : list string) (a : arg) : list insn :=
+    match a with
+    | APos e => gen_expr p ls e
+    | ANamed k e => CONSTANT (VStr k) :: gen_expr p ls e
+    | _ => []
+    end.
   Definition ok_args (args : list arg) : bool :=
-    forallb (fun a => match a with APos e => ok_expr e | _ => false end) args.
+    forallb (fun a => match a with APos e | ANamed _ e => ok_expr e | _ => false end) args.
+  Definition count_pos (args : list arg) : nat := length (filter (fun a => match a with APos _ => true | _ => false end) args).
+  Definition count_named (args : list arg) : nat := length (filter is_named_arg args).
+  Definition flatkw (nm : list (string * value)) : list value := flat_map (fun kv => [VStr (fst kv); snd kv]) nm.
 
-  (* ---- positional call arguments *)
+  (* ---- call arguments: positional values, then name / value pairs *)
   Definition Ar (n : nat) : Prop :=
-    forall stk ρ args acc s fid C fv K pc σ I brk cont,
-      ok_args args = true -> wf ρ -> stk_ok stk fid K ->
-      pcode_at C pc (flat_map (gen_expr p (map fst ρ)) (pos_args args)) brk cont ->
-      sim (eval_args p n stk ρ args acc [] None None s) (S1 fid C fv K pc σ ρ I s)
-          (fun r => exists vs s', r = (acc ++ vs, [], None, None, s') /\ length vs = length args /\
+    forall stk ρ args acc nacc s fid C fv K pc σ I brk cont,
+      ok_args args = true -> pos_then_named args = true -> wf ρ -> stk_ok stk fid K ->
+      pcode_at C pc (flat_map (arg_code (map fst ρ)) args) brk cont ->
+      sim (eval_args p n stk ρ args acc nacc None None s) (S1 fid C fv K pc σ ρ I s)
+          (fun r => exists vs nm s', r = (acc ++ vs, nacc ++ nm, None, None, s') /\
+                    length vs = count_pos args /\ length nm = count_named args /\
                     star (S1 fid C fv K pc σ ρ I s)
-                         (S1 fid C fv K (pc + length (flat_map (gen_expr p (map fst ρ)) (pos_args args))) (rev vs ++ σ) ρ I s')).
+                         (S1 fid C fv K (pc + length (flat_map (arg_code (map fst ρ)) args)) (rev (flatkw nm) ++ rev vs ++ σ) ρ I s')).
+
+  (* ---- entries of a dict display: the dict under construction stays on the stack *)
+  Definition entry_code (ls : list string) (kv : expr * expr * pos) : list insn :=
+    DUP :: gen_expr p ls (fst (fst kv)) ++ gen_expr p ls (snd (fst kv)) ++ [SETDICTUNIQ (snd kv)].
+  Definition ok_entry (kv : expr * expr * pos) : bool := ok_expr (fst (fst kv)) && ok_expr (snd (fst kv)).
+  Definition En (n : nat) : Prop :=
+    forall stk ρ d kvs s fid C fv K pc σ I brk cont,
+      forallb ok_entry kvs = true -> wf ρ -> stk_ok stk fid K ->
+      pcode_at C pc (flat_map (entry_code (map fst ρ)) kvs) brk cont ->
+      sim (eval_entries p n stk ρ d kvs s) (S1 fid C fv K pc (d :: σ) ρ I s)
+          (fun s' => star (S1 fid C fv K pc (d :: σ) ρ I s)
+                          (S1 fid C fv K (pc + length (flat_map (entry_code (map fst ρ)) kvs)) (d :: σ) ρ I s')).
+
+  (* ---- default values of a parameter list, pushed left to right (MANDATORY for required keyword-only parameters) *)
+  Definition Df (n : nat) : Prop :=
+    forall stk ρ ps seen s fid C fv K pc σ I brk cont,
+      forallb ok_param ps = true -> wf ρ -> stk_ok stk fid K ->
+      pcode_at C pc (fst (gen_defaults p (map fst ρ) ps seen)) brk cont ->
+      sim (eval_defaults p n stk ρ ps seen s) (S1 fid C fv K pc σ ρ I s)
+          (fun r => length (fst r) = snd (gen_defaults p (map fst ρ) ps seen) /\
+                    star (S1 fid C fv K pc σ ρ I s)
+                         (S1 fid C fv K (pc + length (fst (gen_defaults p (map fst ρ) ps seen))) (rev (fst r) ++ σ) ρ I (snd r))).
 
   (* ---- calls: the machine is at a CALL instruction with callee and arguments on the stack *)
   Definition Ca (n : nat) : Prop :=
-    forall stk f args ps s fid C fv K pc σ ρ I,
+    forall stk f args nm ps s fid C fv K pc σ ρ I,
       stk_ok stk fid K ->
-      nth_error C pc = Some (CALL 0 (length args) 0 ps) ->
-      sim (call p n stk f args [] ps s) (S1 fid C fv K pc (rev args ++ f :: σ) ρ I s)
-          (fun r => star (S1 fid C fv K pc (rev args ++ f :: σ) ρ I s)
+      nth_error C pc = Some (CALL 0 (length args) (length nm) ps) ->
+      sim (call p n stk f args nm ps s) (S1 fid C fv K pc (rev (flatkw nm) ++ rev args ++ f :: σ) ρ I s)
+          (fun r => star (S1 fid C fv K pc (rev (flatkw nm) ++ rev args ++ f :: σ) ρ I s)
                          (S1 fid C fv K (S pc) (fst r :: σ) ρ I (snd r))).
 
-  (* ---- assignment of the value on top of the (otherwise empty) stack *)
+  (* ---- assignment of the value on top of the stack *)
   Definition As (n : nat) : Prop :=
-    forall stk ρ t v ps s fid C fv K pc I brk cont,
+    forall stk ρ t v ps s fid C fv K pc σ I brk cont,
       ok_target t = true -> wf ρ -> stk_ok stk fid K ->
       pcode_at C pc (gen_assign p (map fst ρ) t ps) brk cont ->
-      sim (assign p n stk ρ t v ps s) (S1 fid C fv K pc [v] ρ I s)
+      sim (assign p n stk ρ t v ps s) (S1 fid C fv K pc (v :: σ) ρ I s)
           (fun r => wf (fst r) /\ map fst (fst r) = map fst ρ /\
-                    star (S1 fid C fv K pc [v] ρ I s)
-                         (S1 fid C fv K (pc + length (gen_assign p (map fst ρ) t ps)) [] (fst r) I (snd r))).
+                    star (S1 fid C fv K pc (v :: σ) ρ I s)
+                         (S1 fid C fv K (pc + length (gen_assign p (map fst ρ) t ps)) σ (fst r) I (snd r))).
+
+  (* ---- assignment of the unpacked values (first one on top) to a sequence of targets *)
+  Definition Aq (n : nat) : Prop :=
+    forall stk ρ ts vs ps s fid C fv K pc σ I brk cont,
+      forallb ok_target ts = true -> length vs = length ts -> wf ρ -> stk_ok stk fid K ->
+      pcode_at C pc (flat_map (fun t => gen_assign p (map fst ρ) t ps) ts) brk cont ->
+      sim (assign_seq p n stk ρ ts vs ps s) (S1 fid C fv K pc (vs ++ σ) ρ I s)
+          (fun r => wf (fst r) /\ map fst (fst r) = map fst ρ /\
+                    star (S1 fid C fv K pc (vs ++ σ) ρ I s)
+                         (S1 fid C fv K (pc + length (flat_map (fun t => gen_assign p (map fst ρ) t ps) ts)) σ (fst r) I (snd r))).
 
   (* what the machine does for each outcome of a statement whose code occupies [pc, pc + len) *)
   Definition after (fid : option nat) (C : list insn) (fv : list (string * nat)) (K : list frame)
